@@ -6,6 +6,7 @@ from .. import harness as H, hist, loader
 
 PROP = "C15"
 LEVEL = "fault_enumeration"
+ANCHORS = ["add_comp", "add_source", "change_comp", "del_comp", "_chk_", "set_sys_phases", "set_comp_phases"]  # functions whose reached lines are reported in the evidence
 RULE = (
     "cases = edit histories driven on TWO real System objects: the subject receives every call, the twin skips "
     "exactly the calls that raised on the subject. At each state the generator fires, besides random edits, the "
